@@ -107,3 +107,24 @@ fn d5_icmpv6_echo_foreign_destination() {
     let r = reply(&f, &m).expect("NS for a handled target must be answered");
     assert_eq!(&r.packet()[22..38], &Ipv6Addr::new(0x2001,0,0,0,0,0,0,2).octets());
 }
+
+#[test]
+fn d8_udp6_zero_checksum() {
+    let m = mk(None);
+    // STUN binding request (20 bytes, end-anchored signature) over UDP/IPv6; sweep the last two id bytes
+    let mut zero = None;
+    for x in 0..=0xffffu32 {
+        let mut p = vec![0x00,0x01, 0x00,0x00, 0x21,0x12,0xa4,0x42];
+        p.extend_from_slice(&[0u8;10]);
+        p.push((x >> 8) as u8); p.push(x as u8);
+        let mut udp = vec![0x03,0xe8, 0x0d,0x96, 0,28, 0,0];
+        udp.extend_from_slice(&p);
+        let f = ip6_frame(Ipv6Addr::new(0x2001,0,0,0,0,0,0,1), Ipv6Addr::new(0x2001,0,0,0,0,0,0,2), 17, &udp);
+        if let Some(r) = reply(&f, &m) {
+            let b = r.packet();
+            let ck = ((b[14+40+6] as u16) << 8) | b[14+40+7] as u16;
+            if ck == 0 { zero = Some(x); break; }
+        }
+    }
+    assert!(zero.is_none(), "UDP/IPv6 reply transmitted with checksum 0 for id suffix {:04x}", zero.unwrap());
+}
